@@ -6,3 +6,5 @@ import PqVerif.Props.C12
 import PqVerif.Props.C13
 import PqVerif.Props.C20
 import PqVerif.Props.C18
+import PqVerif.Props.C07
+import PqVerif.Props.C14
